@@ -27,6 +27,11 @@ Verdict(ev) ==
               IF ev.res.b # BoundariesOf(Pairs(ev.inp.ivs)) THEN "boundaries-differ"
               ELSE IF Pairs(ev.res.back) # Pairs(ev.inp.ivs) THEN "round-trip-differs"
               ELSE "ok"
+         [] ev.kind = "noisy" ->          \* float-noise shared edges: n intervals <-> n + 1 strictly increasing boundaries, inverse to 1e-5
+              IF ev.res.nb # ev.inp.n + 1 THEN "boundary-count"
+              ELSE IF ~ev.res.incr THEN "boundaries-not-increasing"
+              ELSE IF ev.res.err9 > 10000 THEN "round-trip-beyond-5-decimals"
+              ELSE "ok"
          [] ev.kind = "events" ->
               IF ev.res.evs = AdjustEventsSpec(ev.inp.evs, ev.inp.tmin, ev.inp.tmax) THEN "ok"
               ELSE "events-differ"
